@@ -42,6 +42,9 @@ def run(ctx, ck):
     s5_convert(ctx, ck)
     s6_convert_single(ctx, ck)
     s7_alias_tables(ctx, ck)
+    s8_adjust_repeats(ctx, ck)
+    s9_convert_row(ctx, ck)
+    s10_combination_iterator(ctx, ck)
 
 
 # ---------------------------------------------------------------------------------------------
@@ -219,8 +222,14 @@ def s4_translate(ctx, ck):
 
 # ---------------------------------------------------------------------------------------------
 def _err_exit(p):
+    """the path leaves the loop to report an error: `?` on a failed call, or an explicit `return Err(..)`"""
+    if any(e.kind == "guard" and isinstance(e.a, tuple) and e.a[0] == "variantof" and isinstance(e.a[1], tuple) and e.a[1][0] == "try" and e.b == "Break" for e in p.events):
+        return True
     if p.outcome[0] != "return":
-        return False
+        # (the return block is shared: an explicit `return Err(format!(..))` reaches it as ordinary control flow,
+        # with the return place already holding the Err)
+        r0 = (p.env or {}).get(0) if hasattr(p, "env") else None
+        return isinstance(r0, tuple) and len(r0) > 2 and r0[0] == "agg" and r0[2] == "Err"
     r = p.outcome[1]
     return isinstance(r, tuple) and bool(r) and (r[0] == "from_residual" or (r[0] == "agg" and len(r) > 2 and r[2] == "Err"))
 
@@ -359,3 +368,430 @@ def s7_alias_tables(ctx, ck):
                 ck.ob("C13-S7", fn, "later-definitions-are-appended-in-source-order", ok)
         else:
             ck.ob("C13-S7", fn, "other-mappings-do-not-touch-the-alias-table", not pushes and not inserts)
+
+
+# ---------------------------------------------------------------------------------------------
+# S8  adjust_repeats, S9 convert_row, S10 the combination iterator (added after the first seeded changes:
+#     these functions were covered by table clauses only)
+
+def _comb_loop(ctx, ck, rid, fn, b, amaps, mods_term):
+    """the loop `for combination in iterate_combinations(&build_combinations(alias_mappings, <mods>)?)`
+    -> (header, IndexLoop) or None"""
+    outer = [h for h in b.loops() if not any(h in blks and hh != h for hh, blks in b.loops().items())]
+    for h in outer:
+        il = ktloops.index_loop(b, h)
+        it = il.elem[1] if il.elem else None
+        if not (isinstance(it, tuple) and it[0] == "iter"):
+            continue
+        s_ = it[1]
+        if (isinstance(s_, tuple) and s_[0] == "call" and s_[1] == FLI + "iterate_combinations" and isinstance(s_[2][0], tuple) and s_[2][0][0] == "okval"
+                and s_[2][0][1][1] == FLI + "build_combinations" and s_[2][0][1][2] == (amaps, mods_term)):
+            return h, il
+    return None
+
+
+def _mapping_pushes(p, target=None):
+    out = []
+    for i, e in _calls(p, method="push"):
+        v = e.b[1] if len(e.b) > 1 else None
+        if isinstance(v, tuple) and len(v) > 4 and v[0] == "agg" and v[1] == "keys::Mapping" and (target is None or mir.strip(e.b[0]) == target):
+            out.append((i, e))
+    return out
+
+
+def s8_adjust_repeats(ctx, ck):
+    fn = FLI + "adjust_repeats"
+    b = ctx.body(fn)
+    res, table, amaps, fm = (T("param", i, b.dbg.get(i, "")) for i in (1, 2, 3, 4))
+    single = T("field", T("variant", fm, "RepeatOnlySingle"), "0")
+    # other kinds of mapping: nothing happens
+    quiet = True
+    seen_other = False
+    for p in mir.walk_function(b):
+        v = _variant_guard(p, lambda t: mir.strip(t) == fm)
+        if v is not None and v != "RepeatOnlySingle":
+            seen_other = True
+            if _calls(p, method="push") or [e for e in p.events if e.kind == "store"] or p.outcome[0] != "return":
+                quiet = False
+    ck.ob("C13-S8", fn, "only-repeat-only-entries-have-an-effect", quiet and seen_other)
+    found = _comb_loop(ctx, ck, "C13-S8", fn, b, amaps, T("field", T("field", single, "from"), "modifiers"))
+    ck.ob("C13-S8", fn, "one-iteration-per-combination-of-the-entry's-trigger-aliases", found is not None and found[1].complete and not [p for p in found[1].break_paths if not _err_exit(p)])
+    if found is None:
+        return
+    h, il = found
+    comb = il.elem
+    inner = [hh for hh in b.loops() if hh != h and hh in b.loops()[h]]
+    n_hit = n_miss = 0
+    for p in il.cont_paths:
+        fmc = [(i, e) for i, e in _calls(p, name=AC + "from_modifiers")]
+        if len(fmc) != 1 or fmc[0][1].b != (comb,):
+            ck.ob("C13-S8", fn, "trigger==chosen-alias-keys-and-plain-modifiers++[the-entry's-key]", False, detail="from_modifiers calls: %d" % len(fmc))
+            continue
+        frm = T("clone", fmc[0][1].c) if any(e.c == T("clone", fmc[0][1].c) for e in p.events if e.kind == "call") else mir.strip(fmc[0][1].c)
+        keypush = [(i, e) for i, e in _calls(p, method="push") if mir.strip(e.b[0]) in (frm, mir.strip(fmc[0][1].c)) and not (isinstance(e.b[1], tuple) and e.b[1][0] == "agg")]
+        fs = [(i, e) for i, e in _calls(p, name=FLI + "FromSet::new")]
+        ok_from = (len(keypush) == 1 and mir.strip(keypush[0][1].b[1]) in (T("field", T("field", single, "from"), "key"), T("clone", T("field", T("field", single, "from"), "key")))
+                   and len(fs) == 1 and mir.strip(fs[0][1].b[0]) in (frm, mir.strip(fmc[0][1].c)) and keypush[0][0] < fs[0][0])
+        ck.ob("C13-S8", fn, "trigger==chosen-alias-keys-and-plain-modifiers++[the-entry's-key](completed-before-the-lookup)", ok_from)
+        # repeat value
+        arm = _variant_guard(p, lambda t: mir.strip(t) == T("field", single, "repeat"))
+        sets = [e for e in p.events if e.kind == "set" and e.c == "repeat"]
+        rep = sets[-1].b if sets else None
+        if rep is None:
+            # single assignment: find the aggregate in the store / push
+            cands = [s_ for e in p.events for t in (e.a, e.b) if isinstance(t, tuple) for s_ in subterms(t)
+                     if isinstance(s_, tuple) and len(s_) > 2 and s_[0] == "agg" and s_[1] == "keys::Repeat"]
+            rep = cands[0] if cands else None
+        if arm == "Special":
+            f = dict(zip(rep[4], rep[3])) if isinstance(rep, tuple) and rep[0] == "agg" and len(rep) > 4 else {}
+            sp = T("variant", T("field", single, "repeat"), "Special")
+            k = f.get("keys")
+            ok_rep = (isinstance(rep, tuple) and rep[2] == "Special" and isinstance(k, tuple) and k[0] == "okval" and k[1][1] == AC + "translate_single_to_keys"
+                      and k[1][2] == (comb, T("field", sp, "keys")) and f.get("delay_ms") == T("field", sp, "delay_ms") and f.get("interval_ms") == T("field", sp, "interval_ms"))
+        else:
+            ok_rep = isinstance(rep, tuple) and rep[0] == "agg" and rep[2] == arm
+        ck.ob("C13-S8", fn, "repeat-%s-carried-over(chord-translated-under-the-same-combination)" % arm, ok_rep)
+        # lookup by trigger set
+        gets = [(i, e) for i, e in _calls(p, method="get") if "HashMap" in e.a and mir.strip(e.b[0]) == table]
+        ok_get = len(gets) == 1 and len(fs) == 1 and mir.strip(gets[0][1].b[1]) == fs[0][1].c
+        ck.ob("C13-S8", fn, "mappings-with-the-same-trigger-set-are-looked-up-in-the-table-built-by-convert", ok_get)
+        if not ok_get:
+            continue
+        hit = [e.b for e in p.events if e.kind == "guard" and e.a == T("variantof", gets[0][1].c)]
+        pushes = _mapping_pushes(p, res)
+        if hit == ["Some"]:
+            n_hit += 1
+            lps = [e.a for e in p.events if e.kind == "loop" and e.a in inner]
+            ok = len(lps) == 1 and not pushes
+            if ok:
+                il2 = ktloops.index_loop(b, lps[0])
+                ok = (il2.kind == "for-elements" and il2.list_term == mir.strip(T("field", T("variant", gets[0][1].c, "Some"), "0")) and il2.complete and not il2.break_paths
+                      and len(il2.cont_paths) == 1)
+                if ok:
+                    q = il2.cont_paths[0]
+                    st = [e for e in q.events if e.kind == "store"]
+                    want = T("field", T("index", res, il2.elem), "repeat")
+                    ok = len(st) == 1 and mir.strip(st[0].a) == want and isinstance(st[0].b, tuple) and st[0].b[0] == "clone" and not _data_guards(q)
+            ck.ob("C13-S8", fn, "found:the-repeat-of-EVERY-mapping-with-that-trigger-set-is-overwritten(nothing-else)", ok)
+        else:
+            n_miss += 1
+            ok = len(pushes) == 1 and not [e for e in p.events if e.kind == "loop" and e.a in inner]
+            if ok:
+                mp = dict(zip(pushes[0][1].b[1][4], pushes[0][1].b[1][3]))
+                base = mir.strip(fmc[0][1].c)
+                def is_from(t):
+                    t = mir.strip(t)
+                    while isinstance(t, tuple) and t[0] == "clone":
+                        t = mir.strip(t[1])
+                    return t == base
+                ab = mp["absorbing"]
+                ok = (is_from(mp["from"]) and is_from(mp["to"]) and isinstance(ab, tuple) and ab[0] == "call" and method_name(ab[1]) == "new" and not ab[2]
+                      and pushes[0][0] > keypush[0][0] if keypush else False)
+            ck.ob("C13-S8", fn, "not-found:one-identity-mapping(to==from,no-absorbing)-with-that-repeat-is-appended", ok)
+    ck.floor("C13-S8", "found-paths", n_hit, 3)
+    ck.floor("C13-S8", "not-found-paths", n_miss, 3)
+    # FromSet::new: all but the last key sorted, then the last key
+    fsn = ctx.body(FLI + "FromSet::new")
+    keys = T("param", 1, fsn.dbg.get(1, ""))
+    okf = True
+    kinds = set()
+    for p in mir.walk_function(fsn):
+        if p.outcome[0] != "return":
+            continue
+        emp = [e.b for e in p.events if e.kind == "guard" and e.a == T("empty", keys)]
+        names = [method_name(e.a) for i, e in _calls(p)]
+        if emp == [True]:
+            kinds.add("empty")
+            okf = okf and "sort" not in names and "push" not in names
+        elif emp == [False]:
+            kinds.add("nonempty")
+            idx = [e for i, e in _calls(p, method="index") if mir.strip(e.b[0]) == keys]
+            rng_ok = False
+            if len(idx) == 1 and isinstance(idx[0].b[1], tuple) and idx[0].b[1][0] == "agg" and idx[0].b[1][1] == "std::ops::RangeTo":
+                end = idx[0].b[1][3][0]
+                rng_ok = end == T("binop", "Sub", T("len", keys), T("const", T("int", 1, "usize")))
+            order = [n for n in names if n in ("collect", "sort", "last", "push")]
+            lastc = [e for i, e in _calls(p, method="last") if mir.strip(e.b[0]) == keys]
+            okf = okf and rng_ok and order == ["collect", "sort", "last", "push"] and len(lastc) == 1
+        else:
+            okf = False
+    ck.ob("C13-S8", FLI + "FromSet::new", "trigger-set==sorted(all-but-the-last-key)++[last-key]", okf and kinds == {"empty", "nonempty"}, detail=str(sorted(kinds)))
+
+
+def s9_convert_row(ctx, ck):
+    fn = FLI + "convert_row"
+    b = ctx.body(fn)
+    amaps, row = T("param", 1, b.dbg.get(1, "")), T("param", 2, b.dbg.get(2, ""))
+    found = _comb_loop(ctx, ck, "C13-S9", fn, b, amaps, T("field", T("field", row, "from"), "modifiers"))
+    if found is None:
+        ck.ob("C13-S9", fn, "one-iteration-per-combination-of-the-row's-trigger-aliases", False)
+        return
+    h, il = found
+    comb = il.elem
+    inner = [hh for hh in b.loops() if hh != h and hh in b.loops()[h]]
+    # leaving the combination loop early is only allowed to report an error (directly, or out of the letter loop)
+    def inner_err(p):
+        for e in p.events:
+            if e.kind == "loopexit" and e.a in inner:
+                ex = b.exhaustion_exit(e.a)
+                if ex is not None and e.b != ex[1]:
+                    return all(_err_exit(q) for q in ktloops.index_loop(b, e.a).break_paths)
+        return False
+    early = [p for p in il.break_paths if not _err_exit(p) and not inner_err(p)]
+    ck.ob("C13-S9", fn, "one-iteration-per-combination-of-the-row's-trigger-aliases", il.complete and not early,
+          detail=None if not early else "the loop over combinations can be left early without an error")
+    ck.ob("C13-S9", fn, "one-per-letter-loop", len(inner) == 1)
+    if len(inner) != 1:
+        return
+    il2 = ktloops.index_loop(b, inner[0])
+    chars_to = T("call", "core::str::<impl str>::chars", (T("field", T("field", row, "to"), "terminal"),), None)
+    L = il2.list_term
+    ok_letters = (il2.kind == "for-range" and il2.direction == "fwd" and il2.complete and not [p for p in il2.break_paths if not _err_exit(p)]
+                  and isinstance(L, tuple) and L[0] == "call" and method_name(L[1]) == "collect" and isinstance(L[2][0], tuple) and method_name(L[2][0][1]) == "chars"
+                  and mir.strip(L[2][0][2][0]) == T("field", T("field", row, "to"), "terminal"))
+    ck.ob("C13-S9", fn, "letters-of-`to`-visited-in-order,all-of-them(only-error-exits)", ok_letters, detail=show(L)[:100] if L else None)
+    ci = il2.index
+    # outer path facts
+    fm_terms, to_mods, templ = set(), set(), {}
+    for p in il.cont_paths:
+        fmc = [e for i, e in _calls(p, name=AC + "from_modifiers") if e.b == (comb,)]
+        for e in fmc:
+            fm_terms.add(e.c)
+        for i, e in _calls(p, name=AC + "reify_modifiers"):
+            if e.b == (comb, T("field", T("field", row, "to"), "initial")):
+                to_mods.add(T("okval", e.c))
+        arm = _variant_guard(p, lambda t: mir.strip(t) == T("field", row, "repeat"))
+        sets = [e for e in p.events if e.kind == "set" and e.c == "repeat_template"]
+        if arm and sets:
+            templ.setdefault(arm, set()).add(sets[-1].b)
+    ck.ob("C13-S9", fn, "trigger-modifiers-and-output-modifiers-computed-once-per-combination-from-the-row's-own-lists", len(fm_terms) == 1 and len(to_mods) == 1,
+          detail="%d/%d" % (len(fm_terms), len(to_mods)))
+    if len(fm_terms) != 1 or len(to_mods) != 1:
+        return
+    fmods = list(fm_terms)[0]
+    tmods = list(to_mods)[0]
+    # repeat template per arm
+    ok_t = set(templ) == {"Normal", "Disabled", "Special"}
+    for arm, vals in templ.items():
+        if len(vals) != 1:
+            ok_t = False
+            continue
+        v = list(vals)[0]
+        if arm in ("Normal", "Disabled"):
+            ok_t = ok_t and isinstance(v, tuple) and v[0] == "agg" and v[2] == arm
+        else:
+            f = dict(zip(v[4], v[3])) if isinstance(v, tuple) and v[0] == "agg" and len(v) > 4 else {}
+            sp = T("variant", T("field", row, "repeat"), "Special")
+            m_ = f.get("modifiers")
+            t_ = f.get("terminal")
+            ok_t = ok_t and (v[2] == "Special" and isinstance(m_, tuple) and m_[0] == "okval" and m_[1][1] == AC + "reify_modifiers"
+                             and m_[1][2] == (comb, T("field", T("field", sp, "keys"), "initial"))
+                             and isinstance(t_, tuple) and t_[0] == "call" and method_name(t_[1]) == "collect" and method_name(t_[2][0][1]) == "chars"
+                             and mir.strip(t_[2][0][2][0]) == T("field", T("field", sp, "keys"), "terminal")
+                             and f.get("delay_ms") == T("field", sp, "delay_ms") and f.get("interval_ms") == T("field", sp, "interval_ms"))
+    ck.ob("C13-S9", fn, "repeat-template==the-row's-repeat(chord-modifiers-reified-under-the-same-combination,chord-letters-from-its-own-terminal)", ok_t, detail=str(sorted(templ)))
+    # per-letter paths
+    hrs = T("call", FLI + "find_right_shift", (T("clone", fmods),), None)
+    n_some = n_none = 0
+    rep_arms = set()
+    for q in il2.cont_paths:
+        crt = [(i, e) for i, e in _calls(q, name=FLI + "convert_row_to")]
+        if not crt:
+            ck.ob("C13-S9", fn, "letter-path-calls-convert_row_to", False)
+            continue
+        a0 = crt[0][1].b
+        first_ok = (len(a0) == 4 and isinstance(a0[0], tuple) and a0[0][0] == "call" and a0[0][1] == FLI + "find_right_shift" and mir.strip(a0[0][2][0]) in (fmods, T("clone", fmods))
+                    and mir.strip(a0[1]) == tmods and mir.strip(a0[2]) == L and a0[3] == ci)
+        ck.ob("C13-S9", fn, "output==convert_row_to(right-shift-of-THIS-trigger,output-modifiers,letters,letter-index)", first_ok)
+        res0 = T("okval", crt[0][1].c)
+        v = [e.b for e in q.events if e.kind == "guard" and e.a == T("variantof", res0)]
+        pushes = _mapping_pushes(q)
+        if v == ["None"] or (v and v[0] != "Some"):
+            n_none += 1
+            ck.ob("C13-S9", fn, "unmapped-letter(space/past-the-row)->no-mapping", not pushes)
+            continue
+        n_some += 1
+        if len(pushes) != 1:
+            ck.ob("C13-S9", fn, "mapped-letter->exactly-one-mapping", False, detail="%d" % len(pushes))
+            continue
+        mp = dict(zip(pushes[0][1].b[1][4], pushes[0][1].b[1][3]))
+        frm = mir.strip(mp["from"])
+        base = frm
+        while isinstance(base, tuple) and base[0] == "clone":
+            base = mir.strip(base[1])
+        keypush = [(i, e) for i, e in _calls(q, method="push") if mir.strip(e.b[0]) == frm and not (isinstance(e.b[1], tuple) and e.b[1][0] == "agg")]
+        ok_from = False
+        if base == fmods and len(keypush) == 1 and keypush[0][0] < pushes[0][0]:
+            kk = mir.strip(keypush[0][1].b[1])
+            ok_from = isinstance(kk, tuple) and kk[0] == "index" and kk[2] == ci and isinstance(kk[1], tuple) and kk[1][0] == "okval" and "ok_or" in str(kk[1][1][1]) \
+                and any(isinstance(s_, tuple) and s_ == T("field", T("field", row, "from"), "row") for s_ in subterms(kk[1]))
+        ck.ob("C13-S9", fn, "trigger==chosen-alias-keys-and-plain-modifiers++[key-at-the-letter's-position-in-the-row-named-by-the-mapping]", ok_from)
+        ck.ob("C13-S9", fn, "to==that-convert_row_to-result", mir.strip(mp["to"]) == T("field", T("variant", res0, "Some"), "0"))
+        ab = mp["absorbing"]
+        ck.ob("C13-S9", fn, "absorbing==reified-absorbing-list-under-the-same-combination",
+              isinstance(ab, tuple) and ab[0] == "okval" and ab[1][1] == AC + "reify_modifiers" and ab[1][2] == (comb, T("field", row, "absorbing")))
+        # repeat
+        tv = [e.b for e in q.events if e.kind == "guard" and isinstance(e.a, tuple) and e.a[0] == "variantof" and isinstance(e.a[1], tuple) and e.a[1][0] == "var"
+              and len(e.a[1]) > 2 and e.a[1][2] == "repeat_template"]
+        rep = mp["repeat"]
+        arm = tv[0] if tv else None
+        if arm in ("Normal", "Disabled"):
+            rep_arms.add(arm)
+            ck.ob("C13-S9", fn, "repeat-%s-carried-over" % arm, isinstance(rep, tuple) and rep[0] == "agg" and rep[2] == arm)
+        elif arm == "Special" and len(crt) == 2:
+            a1 = crt[1][1].b
+            tmplv = [e.a[1] for e in q.events if e.kind == "guard" and isinstance(e.a, tuple) and e.a[0] == "variantof" and isinstance(e.a[1], tuple) and e.a[1][0] == "var"][0]
+            spv = T("variant", tmplv, "Special")
+            second_ok = (len(a1) == 4 and a1[0] == a0[0] and mir.strip(a1[1]) == T("field", spv, "modifiers") and mir.strip(a1[2]) == T("field", spv, "terminal") and a1[3] == ci)
+            res1 = T("okval", crt[1][1].c)
+            v1 = [e.b for e in q.events if e.kind == "guard" and e.a == T("variantof", res1)]
+            if v1 == ["Some"]:
+                rep_arms.add("Special/Some")
+                f = dict(zip(rep[4], rep[3])) if isinstance(rep, tuple) and rep[0] == "agg" and len(rep) > 4 else {}
+                okr = (second_ok and rep[2] == "Special" and mir.strip(f.get("keys")) == T("field", T("variant", res1, "Some"), "0")
+                       and f.get("delay_ms") == T("field", spv, "delay_ms") and f.get("interval_ms") == T("field", spv, "interval_ms"))
+                ck.ob("C13-S9", fn, "repeat-Special:chord==convert_row_to(chord-modifiers,chord-letters,SAME-letter-index),delay-and-interval-carried-over", okr)
+            else:
+                rep_arms.add("Special/None")
+                ck.ob("C13-S9", fn, "repeat-Special:no-chord-letter-at-this-position->Normal", second_ok and isinstance(rep, tuple) and rep[0] == "agg" and rep[2] == "Normal")
+        else:
+            ck.ob("C13-S9", fn, "letter-path-classifies-the-repeat-template", False, detail=str(arm))
+    ck.ob("C13-S9", fn, "all-repeat-cases-present", rep_arms == {"Normal", "Disabled", "Special/Some", "Special/None"}, detail=str(sorted(rep_arms)))
+    ck.floor("C13-S9", "mapped-letter-paths", n_some, 4)
+    ck.floor("C13-S9", "unmapped-letter-paths", n_none, 1)
+    # result: the accumulated vector
+    oks = [p for p in mir.walk_function(b) if p.outcome[0] == "return" and isinstance(p.outcome[1], tuple) and p.outcome[1][0] == "agg" and p.outcome[1][2] == "Ok"]
+    ck.ob("C13-S9", fn, "returns-the-accumulated-mappings", bool(oks) and all(isinstance(p.outcome[1][3][0], tuple) and p.outcome[1][3][0][0] == "call" and method_name(p.outcome[1][3][0][1]) == "new" for p in oks))
+
+
+def s10_combination_iterator(ctx, ck):
+    """every digit vector 0 <= t[i] < quantities[i] is produced exactly once: the mixed-radix counter's step is
+    `return the current vector; bump the first digit that is below its maximum and zero the digits before it; when no
+    digit can be bumped the next call ends`"""
+    nx = "<fancy_layout_interpreting::MultiplyIter<'s> as std::iter::Iterator>::next"
+    b = ctx.body(nx)
+    me = T("param", 1, b.dbg.get(1, ""))
+    pos, qty, done = T("field", me, "position"), T("field", me, "quantities"), T("field", me, "done")
+    outer = [h for h in b.loops() if ktloops.index_loop(b, h).list_term == qty]
+    ck.ob("C13-S10", nx, "one-digit-loop", len(outer) == 1)
+    if len(outer) != 1:
+        return
+    h = outer[0]
+    il = ktloops.index_loop(b, h)
+    ck.ob("C13-S10", nx, "digits-visited-from-the-first,all-of-them", il.kind == "for-range" and il.direction == "fwd" and il.list_term == qty and il.complete)
+    i = il.index
+    can_bump = T("binop", "Lt", T("index", pos, i), T("binop", "Sub", T("index", qty, i), T("const", T("int", 1, "usize"))))
+    okc = len(il.cont_paths) >= 1
+    for p in il.cont_paths:
+        g = _data_guards(p)
+        okc = okc and g == [(can_bump, False)] and not [e for e in p.events if e.kind == "store"]
+    ck.ob("C13-S10", nx, "a-digit-at-its-maximum-is-passed-over-untouched", okc)
+    okb = len(il.break_paths) == 1
+    inner = [hh for hh in b.loops() if hh != h]
+    for p in il.break_paths:
+        g = _data_guards(p)
+        st = [e for e in p.events if e.kind == "store"]
+        lps = [e.a for e in p.events if e.kind == "loop"]
+        okb = okb and g == [(can_bump, True)] and len(st) == 1 and mir.strip(st[0].a) == T("index", pos, i) \
+            and st[0].b == T("binop", "Add", T("index", pos, i), T("const", T("int", 1, "usize"))) and len(lps) == 1
+        if okb:
+            il2 = ktloops.index_loop(b, lps[0])
+            L2 = il2.elem[1][1] if il2.elem else None
+            rng = None
+            for q in il2.cont_paths + il2.exh_paths:
+                for e in q.events:
+                    if e.kind == "guard" and isinstance(e.a, tuple) and e.a[0] == "variantof" and isinstance(e.a[1], tuple) and e.a[1][0] == "next":
+                        rng = e.a[1][1][1]
+            j = T("elem", T("iter", rng, "fwd"), lps[0]) if rng else None
+            okz = (isinstance(rng, tuple) and rng[0] == "agg" and rng[1] == "std::ops::Range" and const_int(rng[3][0]) == 0 and rng[3][1] == i
+                   and bool(il2.exh_paths) and not il2.break_paths and len(il2.cont_paths) == 1)
+            if okz:
+                q = il2.cont_paths[0]
+                st2 = [e for e in q.events if e.kind == "store"]
+                okz = len(st2) == 1 and isinstance(st2[0].a, tuple) and st2[0].a[0] == "index" and mir.strip(st2[0].a[1]) == pos and isinstance(st2[0].a[2], tuple) \
+                    and st2[0].a[2][0] == "elem" and st2[0].a[2][1] == T("iter", rng, "fwd") and const_int(st2[0].b) == 0 and not _data_guards(q)
+            okb = okb and okz
+    ck.ob("C13-S10", nx, "first-digit-below-its-maximum:incremented-by-one,all-earlier-digits-reset-to-0,scan-stops", okb)
+    # function level: what is returned, and when the iterator ends
+    kinds = set()
+    okf = True
+    for p in mir.walk_function(b):
+        if p.outcome[0] != "return":
+            continue
+        d = [e.b for e in p.events if e.kind == "guard" and e.a == done]
+        r = p.outcome[1]
+        if d == [True]:
+            kinds.add("ended")
+            okf = okf and isinstance(r, tuple) and r[0] == "agg" and r[2] == "None" and not [e for e in p.events if e.kind == "store"]
+        elif d == [False]:
+            cl = [k for k, e in enumerate(p.events) if e.kind == "call" and method_name(e.a) == "clone" and mir.strip(e.b[0]) == pos]
+            first_store = [k for k, e in enumerate(p.events) if e.kind == "store" or e.kind == "loop"]
+            ok_ret = (isinstance(r, tuple) and r[0] == "agg" and r[2] == "Some" and r[3][0] == T("clone", pos) and len(cl) == 1
+                      and (not first_store or cl[0] < first_store[0]))
+            ex = [e for e in p.events if e.kind == "loopexit" and e.a == h]
+            exh = b.exhaustion_exit(h)
+            dn = [e for e in p.events if e.kind == "store" and mir.strip(e.a) == done]
+            if ex and exh and ex[0].b == exh[1]:
+                kinds.add("last")
+                okf = okf and ok_ret and len(dn) == 1 and const_int(dn[0].b) == 1
+            else:
+                kinds.add("bumped")
+                okf = okf and ok_ret and not dn
+        else:
+            okf = False
+    ck.ob("C13-S10", nx, "returns-the-vector-as-it-was-BEFORE-the-step;ends-after-the-vector-in-which-no-digit-could-be-bumped", okf and kinds == {"ended", "last", "bumped"},
+          detail=str(sorted(kinds)))
+    # the constructor: all digits 0, not ended
+    new = ctx.body([p for p in ctx.F.bodies if p.startswith("fancy_layout_interpreting::MultiplyIter::<") and p.endswith("::new")][0])
+    q0 = T("param", 1, new.dbg.get(1, ""))
+    okn = False
+    lp = sorted(new.loops())
+    rets = [p for p in mir.walk_function(new) if p.outcome[0] == "return"]
+    if len(lp) == 1 and len(rets) == 1:
+        iln = ktloops.index_loop(new, lp[0])
+        r = rets[0].outcome[1]
+        f = dict(zip(r[4], r[3])) if isinstance(r, tuple) and r[0] == "agg" and len(r) > 4 else {}
+        okn = (iln.kind == "for-range" and iln.list_term == q0 and iln.complete and not iln.break_paths and len(iln.cont_paths) == 1
+               and f.get("quantities") == q0 and const_int(f.get("done")) == 0 and isinstance(f.get("position"), tuple) and f["position"][0] == "call" and method_name(f["position"][1]) == "new")
+        if okn:
+            pu = _calls(iln.cont_paths[0], method="push")
+            okn = len(pu) == 1 and mir.strip(pu[0][1].b[0]) == f["position"] and const_int(pu[0][1].b[1]) == 0 and not _data_guards(iln.cont_paths[0])
+    ck.ob("C13-S10", new.path, "starts-at-the-all-zero-vector-with-one-digit-per-quantity,not-ended", okn)
+    # wrappers
+    itc = ctx.body(FLI + "iterate_combinations")
+    ia = T("param", 1, itc.dbg.get(1, ""))
+    rets = [p for p in mir.walk_function(itc) if p.outcome[0] == "return"]
+    okw = False
+    if len(rets) == 1:
+        r = rets[0].outcome[1]
+        f = dict(zip(r[4], r[3])) if isinstance(r, tuple) and r[0] == "agg" and len(r) > 4 else {}
+        c = f.get("combinations")
+        okw = f.get("iterable") == ia and isinstance(c, tuple) and c[0] == "call" and c[1] == FLI + "multiply" and mir.strip(c[2][0]) == T("field", ia, "alias_quantities")
+    ck.ob("C13-S10", itc.path, "combinations==the-counter-over-the-aliases'-definition-counts", okw)
+    mu = ctx.body(FLI + "multiply")
+    rets = [p for p in mir.walk_function(mu) if p.outcome[0] == "return"]
+    okm = len(rets) == 1 and isinstance(rets[0].outcome[1], tuple) and rets[0].outcome[1][0] == "call" and rets[0].outcome[1][1] == new.path \
+        and rets[0].outcome[1][2] == (T("param", 1, mu.dbg.get(1, "")),)
+    ck.ob("C13-S10", mu.path, "multiply==MultiplyIter::new", okm)
+    an = ctx.body("<fancy_layout_interpreting::AliasCombinationIterator<'s, 't> as std::iter::Iterator>::next")
+    sa = T("param", 1, an.dbg.get(1, ""))
+    oka = True
+    seen = set()
+    for p in mir.walk_function(an):
+        if p.outcome[0] != "return":
+            continue
+        r = p.outcome[1]
+        v = [e.b for e in p.events if e.kind == "guard" and isinstance(e.a, tuple) and e.a[0] == "variantof" and isinstance(e.a[1], tuple) and e.a[1][0] == "try"]
+        if v == ["Continue"]:
+            seen.add("some")
+            inner_ = r[3][0] if isinstance(r, tuple) and r[0] == "agg" and r[2] == "Some" else None
+            f = dict(zip(inner_[4], inner_[3])) if isinstance(inner_, tuple) and inner_[0] == "agg" and len(inner_) > 4 else {}
+            t = f.get("tuple")
+            oka = oka and mir.strip(f.get("it")) == T("field", sa, "iterable") and isinstance(t, tuple) and t[0] == "okval" and isinstance(t[1], tuple) and t[1][0] == "next" \
+                and mir.strip(t[1][1]) == T("field", sa, "combinations")
+        elif v == ["Break"]:
+            seen.add("end")
+            oka = oka and isinstance(r, tuple) and r[0] == "from_residual"
+        else:
+            oka = False
+    ck.ob("C13-S10", an.path, "one-AliasCombination-per-digit-vector,ending-when-the-counter-ends", oka and seen == {"some", "end"})
